@@ -440,14 +440,41 @@ def o_c04_okays(scn, obs, runner):
 TIMEOUT_KINDS = ("err AdbTimeoutError", "err TransportTimeout")
 
 
+def _packets_in(c, lo, hi):
+    """Device packets whose last byte lies in the inbound byte range (lo, hi] of connection c: [(cmd, a0, a1)]."""
+    stream = b"".join(raw for need, raw in c.segs)
+    out, i = [], 0
+    while i + 24 <= len(stream):
+        ln = int.from_bytes(stream[i + 12:i + 16], "little")
+        end = i + 24 + ln
+        if lo < end <= hi:
+            out.append((bytes(stream[i:i + 4]), int.from_bytes(stream[i + 4:i + 8], "little"), int.from_bytes(stream[i + 8:i + 12], "little")))
+        if end > hi:
+            break
+        i = end
+    return out
+
+
 def o_c11(scn, obs, runner):
-    """a stalled device yields a timeout error within a bounded virtual time; never a hang, never fabricated data."""
+    """Every wait is bounded (theorem C11_ioRead_bound: R + 2(R + max(D, tau)) whatever traffic arrives); an operation performs one
+    wait per packet DELIVERED to it (its own streams' packets / handshake packets) plus one failing wait plus its close handshake.
+    Foreign or unexpected traffic must not extend the time.  Never a hang."""
     fails = []
     prev_now = scn.get("now", 1 << 40)
+    prev_lid = scn.get("preset", {}).get("lid", 0)
+    prev_in = {}
     for i, (op, o) in enumerate(zip(scn["ops"], obs)):
         elapsed = o["now"] - prev_now
         prev_now = o["now"]
+        lids = set(lids_of_op(prev_lid, o["lid"]))
+        prev_lid = o["lid"]
+        ci = o.get("conn", -1)
+        lo = prev_in.get(ci, 0) if op["op"] != "connect" else 0
+        hi = o.get("inoff", 0)
+        prev_in[ci] = hi
         rt, tt, t = op.get("rt", 10240), op.get("tt"), op.get("t")
+        if tt is None:
+            tt = scn.get("dtt")
         if rt is None or rt < 0 or (tt is not None and tt < 0) or (t is not None and t < 0):
             continue      # no bound claimed for None/negative configurations (only agreement with the model)
         if o["res"] == "err Hang":
@@ -456,14 +483,21 @@ def o_c11(scn, obs, runner):
         eff_rt = rt if t is None else min(rt, t)
         eff_tt = eff_rt if tt is None else min(tt, eff_rt)
         if op["op"] == "connect":
-            eff_tt = max(eff_tt, op.get("at", 10240))
-        dt = max([int(e.get("dt", 1)) for e in scn["envs"]] + [1])
-        # every wait is bounded by read + transport timeout (+ one call); an operation is a bounded number of phases
-        per_wait = eff_rt + eff_tt + 2 * dt
-        packets = sum(len(c.segs) for c in runner.link.used) + sum(len(c.calls) for c in runner.link.used)
-        bound = 6 * per_wait + (t or 0) + packets * dt + 64 * dt
+            eff_tt = max(eff_tt, op.get("at", 10240) or 0)
+        if op["op"] == "pull" and op.get("cb", "none") != "none":
+            pass
+        if not (0 <= ci < len(runner.link.used)):
+            continue
+        c = runner.link.used[ci]
+        D = max(int(c.env.get("dt", 1)), 1)
+        pk = _packets_in(c, lo, hi)
+        mine = [p for p in pk if p[0] in (b"CNXN", b"AUTH") or p[2] in lids or p[2] == 0]
+        writes = sum(1 for call in c.calls if call[0] == "w")     # sends cost D each; count all on this connection (loose but traffic-independent)
+        per_wait = eff_rt + 2 * (eff_rt + max(D, eff_tt))
+        bound = (len(mine) + 3) * per_wait + (t or 0) + min(writes, 40 + 4 * len(mine)) * D + 8 * D
         if elapsed > bound:
-            fails.append(dict(op=i, why="%s took %d ticks, bound %d (rt=%s tt=%s t=%s)" % (op["op"], elapsed, bound, rt, tt, t)))
+            fails.append(dict(op=i, why="%s took %d ticks; %d packets were delivered to it, so at most %d waits of <= %d ticks each are justified (bound %d; rt=%s tt=%s t=%s, call cost %d)" % (
+                op["op"], elapsed, len(mine), len(mine) + 3, per_wait, bound, rt, tt, t, D)))
     return fails
 
 
@@ -549,5 +583,32 @@ def o_healthy(scn, obs, runner):
             if k not in ("connect", "close") and (not avail or op.get("path") == b""):
                 continue
             fails.append(dict(op=i, why="healthy device, legal behaviour, but %s raised %s" % (k, o["res"][:80])))
+            break
+    return fails
+
+
+def o_c12_after_reconnect(scn, obs, runner):
+    """C12: after a failed session, connect() to a healthy device succeeds and every operation then behaves correctly: the operations
+    replayed after the reconnect run against a healthy device and must all return normally (their values are judged by the result oracles)."""
+    if "n_before" not in scn:
+        return []
+    fails = []
+    n = scn["n_before"]
+    tail = list(zip(scn["ops"], obs))[n:]
+    started = False
+    for j, (op, o) in enumerate(tail):
+        i = n + j
+        if op["op"] == "connect":
+            started = True
+            if not res_ok(o):
+                fails.append(dict(op=i, why="connect() to a healthy device after the broken session: %s" % o["res"][:80]))
+                break
+            continue
+        if op["op"] == "close" or not started:
+            if op["op"] == "close" and not res_ok(o):
+                fails.append(dict(op=i, why="close() after the broken session raised %s" % o["res"][:80]))
+            continue
+        if not res_ok(o):
+            fails.append(dict(op=i, why="after reconnecting to a healthy device, %s raised %s (state from the broken session leaked into the new one)" % (op["op"], o["res"][:80])))
             break
     return fails
